@@ -25,7 +25,7 @@ import (
 
 const kitchenSink = `
 schema:
-  fields: [facility, level, time, host, app, pid, source, extradata, log, class, task, vhost, short, mapped, num, dup1, dup2]
+  fields: [facility, level, time, host, app, pid, source, extradata, log, class, task, vhost, short, mapped, num, dup1, dup2, mid]
   maxFields: 20
 inputs:
   - type: syslog
@@ -59,6 +59,7 @@ transformations:
       mapped: $level
       dup1: $log
       dup2: $app $log
+      mid: ${host[1:-2]}|${app[2:-3]}|${source[-3:2]}|${host[1:-1]}
   - type: mapValue
     key: mapped
     mapping:
